@@ -2,7 +2,7 @@
 import itertools, json, sys, warnings
 import numpy as np
 warnings.simplefilter('ignore')
-from bioscrape.types import Model, Volume
+from bioscrape.types import Model, Volume, StochasticTimeThresholdVolume
 from bioscrape.simulator import py_simulate_model, ModelCSimInterface, SafeModelCSimInterface
 from bioscrape.random import py_seed_random
 
@@ -12,11 +12,12 @@ SPEC = json.loads(sys.argv[1]) if len(sys.argv) > 1 else {}
 def models():
     yield 'plain', dict(species=['Z', 'X', 'Y'], reactions=[(['X'], ['Y'], 'massaction', {'k': 1.0}), (['Y'], [], 'massaction', {'k': 0.3})],
                         initial_condition_dict={'X': 10, 'Y': 0, 'Z': 2})
-    yield 'delay+rule', dict(species=['Z', 'X', 'Y'],
+    yield 'delay+rule', dict(species=['Z', 'X', 'Y', 'W'],
                              reactions=[(['X'], ['Y'], 'massaction', {'k': 1.0}),
                                         (['Y'], [], 'massaction', {'k': 0.5}, 'fixed', [], ['X'], {'delay': 0.7})],
-                             rules=[('additive', {'equation': 'Z = X + Y'}), ('assignment', {'equation': 'p = 2*X + volume'})],
-                             parameters=[('p', 0.0)], initial_condition_dict={'X': 10, 'Y': 0, 'Z': 0})
+                             rules=[('additive', {'equation': 'Z = X + Y'}), ('assignment', {'equation': 'p = 2*X + volume'}),
+                                    ('assignment', {'equation': 'W = X*volume'})],       # a species that shows the volume the rules see
+                             parameters=[('p', 0.0)], initial_condition_dict={'X': 10, 'Y': 0, 'Z': 0, 'W': 0})
 
 
 def main():
@@ -24,13 +25,16 @@ def main():
     T = np.linspace(0, 3, 16)
     for name, kw in models():
         for stochastic, delay, safe, frame, via_itf in itertools.product([False, True], [False, True], [False, True], [False, True], [False, True]):
-            for vol in (False, True, 2.5, 'object'):
+            for vol in (False, True, 2.5, 'object', 'dividing'):
                 M = Model(**kw)
                 order = sorted(M.get_species2index(), key=lambda s: M.get_species2index()[s])
                 v = vol
                 if vol == 'object':
                     v = Volume()
                     v.py_set_volume(2.5)
+                if vol == 'dividing':        # a volume model whose cell divides inside the grid: the result is cut at the division
+                    v = StochasticTimeThresholdVolume(2.0, 2.0, 0.0)
+                    v.py_initialize(M.get_species_array().astype(float), np.zeros(8), 0.0, 1.2)
                 args = dict(stochastic=stochastic, delay=delay, safe=safe, volume=v, return_dataframe=frame)
                 if via_itf:
                     args['Interface'] = (SafeModelCSimInterface if safe else ModelCSimInterface)(M)
@@ -66,6 +70,8 @@ def main():
                 x0 = dict(kw['initial_condition_dict'])
                 if 'rules' in kw:
                     x0['Z'] = x0['X'] + x0['Y']
+                    volval = {False: 1.0, True: 1.0, 2.5: 2.5, 'object': 2.5, 'dividing': 1.2}[vol] if (stochastic or delay) else 1.0
+                    x0['W'] = x0['X'] * volval
                 want0 = [x0[s] for s in order]
                 if not np.allclose(rows[0], want0):
                     return dict(reproduced=True, call=call, observed=rows[0].tolist(), expected=want0)
